@@ -5,6 +5,7 @@
 //               functions Dawson and erf the real computation called (logged through linker wrappers);
 //   `< V <nA> <nB> <bits>*`: the block the library returns.
 #include "common.hpp"
+#include <sstream>
 #include "libecpint/mathutil.hpp"
 using namespace libecpint;
 static std::string bits(double v) { unsigned long long u; memcpy(&u, &v, 8); char b[32]; snprintf(b, sizeof b, "%016llx", u); return b; }
@@ -47,8 +48,14 @@ int main() {
 		ECPIntegral &eng = *engines[key];
 		logD.clear(); logE.clear(); logging = true;
 		TwoIndex<double> V;
+		// the library reports non-convergence of its adaptive quadratures on std::cerr and carries on: count the reports
+		std::stringstream errbuf; std::streambuf *olderr = std::cerr.rdbuf(errbuf.rdbuf());
 		eng.compute_shell_pair(U, sh[0], sh[1], V, sa, sb);
+		std::cerr.rdbuf(olderr);
 		logging = false;
+		size_t warn1 = 0, warn2 = 0;
+		{ std::string e = errbuf.str(); for (size_t p = 0; (p = e.find("Failed to converge", p)) != std::string::npos; p++) warn1++;
+		  for (size_t p = 0; (p = e.find("Failed at second attempt", p)) != std::string::npos; p++) warn2++; }
 		std::ostream &o = std::cout;
 		o << "> begin pair\n> engine " << maxLB << " " << maxLU << " " << deriv << "\n";
 		o << "> ecp " << bits(U.center_[0]) << " " << bits(U.center_[1]) << " " << bits(U.center_[2]) << " " << U.getN();
@@ -71,6 +78,7 @@ int main() {
 #else
 		o << "> sw 1 1 1 1 1 0\n> end\n";
 #endif
+		o << "< W " << warn1 << " " << warn2 << "\n";
 		o << "< V " << V.dims[0] << " " << V.dims[1]; for (double v : V.data) o << " " << bits(v); o << "\n< end\n";
 	}
 	return 0;
